@@ -381,10 +381,34 @@ def nominally_always_true(o, v: Ty) -> bool:
     return False
 
 
+def _classes_of(t) -> list:
+    if t is None:
+        return []
+    if t.kind == "Union":
+        return [c for m in t.args for c in _classes_of(m)]
+    if t.kind == "Cls" and isinstance(t.extra, type):
+        return [t.extra]
+    return []
+
+
+def in_intersection_of_unrelated_classes(o, v: Ty, tested) -> bool:
+    """o is an instance of a declared class D and of a tested class T that are unrelated (neither is a subclass of the
+    other): only a type that is a subclass of both - an intersection pyanalyze cannot express - contains it."""
+    for d in _classes_of(v):
+        for t in _classes_of(tested):
+            if d is object or t is object or issubclass(d, t) or issubclass(t, d):
+                continue
+            if isinstance(o, d) and isinstance(o, t):
+                return True
+    return False
+
+
 def lost_key(c, tag, o, v: Ty, t: Ty) -> str:
     prims = set(prim_kinds(c.kind).split("+"))
     if prims & TRUTHY_KINDS and nominally_always_true(o, v):
         return "truthiness|falsy-member-of-type-assumed-always-true"
+    if in_intersection_of_unrelated_classes(o, v, c.tested):
+        return "intersection|instance-of-two-unrelated-classes-is-narrowed-away"
     return f"lost|{prim_kinds(c.kind)}|{'pos' if tag else 'neg'}|{type(o).__name__}|narrowed:{tkind(t)}"
 
 
